@@ -137,7 +137,7 @@ def receiptOp (op : String) (ws : List String) : String :=
     | some v2, some d =>
       match Receipt.unmarshalStore v2 d with
       | some (r, rest) => s!"{showReceipt r} | {hex rest}"
-      | none => "panic"
+      | none => "reject"
     | _, _ => "bad-op"
   | "rsm", v :: bl :: n :: ws =>
     match parseV v, (if bl == "nil" then some none else (unhex bl).map some), n.toNat? with
@@ -153,7 +153,7 @@ def receiptOp (op : String) (ws : List String) : String :=
       | some (bloom, rs) =>
         let b := match bloom with | some b => hex b | none => "nil"
         s!"{b} {rs.length}" ++ String.join (rs.map fun r => " " ++ showReceipt r)
-      | none => "panic"
+      | none => "reject"
     | _, _ => "bad-op"
   | _, _ => "bad-op"
 
